@@ -211,6 +211,10 @@ class Ctx:
         pass
 
 
+_CONTAINER_MUTATORS = ('append', 'extend', 'insert', 'pop', 'remove', 'clear', 'update', 'setdefault', 'popitem',
+                       'add', 'discard', 'sort', 'reverse', '__setitem__', '__delitem__')
+
+
 class ApplyRecord:
     def __init__(self, cls, ctx, args, out, loc, path):
         self.cls, self.ctx, self.args, self.out, self.loc, self.path = cls, ctx, args, out, loc, path
@@ -598,6 +602,19 @@ class Libs:
                 if v is obj:
                     self.interp.event('global-container-write', target='%s.%s' % (m.name, k))
                     return
+                if isinstance(v, PyClass):
+                    for ck, cv in v.ns.items():
+                        if cv is obj:
+                            self.interp.event('classattr-write', target='%s.%s[...]' % (v.name, ck))
+                            return
+        # containers kept on a constructed (frozen) module instance outlive the call as well
+        for inst in self.interp.instances:
+            if not inst.frozen:
+                continue
+            for k, v in inst.attrs.items():
+                if v is obj:
+                    self.interp.event('module-attr-write', target='%s.%s[...]' % (inst.cls.name, k))
+                    return
 
     def delitem(self, obj, idx):
         if isinstance(obj, (dict, list)):
@@ -692,6 +709,10 @@ class Libs:
         if callable(f):
             foreign = (getattr(f, '__module__', None) or '').split('.')[0] in ('numpy', 'builtins', 'operator') \
                 or isinstance(f, type)
+            owner = getattr(f, '__self__', None)
+            if isinstance(owner, (dict, list, set)) and not isinstance(owner, ArgList) and \
+                    getattr(f, '__name__', '') in _CONTAINER_MUTATORS:
+                self._note_container_write(owner)
             try:
                 return f(*args, **kwargs)
             except (AnalysisError, PyExc, DomainViolation):
